@@ -57,6 +57,8 @@ inductive Api where
   | failNet (cls : ErrClass) -- fault injection: the underlying net.Conn starts failing writes with this error
   | setHandler (h : Nat)   -- SetActiveSessionHandler
   | guardedClose           -- `if !Closed(c) { CloseUnknown(c) }` (serverConnection.disconnect0)
+  | cancelParent           -- the context handed to NewMinecraftConn is cancelled (listener / proxy shutdown):
+                           -- the connection's context is its child, so `Closed(c)` turns true — WITHOUT any close
   deriving Repr, DecidableEq
 
 /-- read-loop input: a packet (whose handler may panic after its body) or end of stream -/
@@ -124,6 +126,7 @@ def effApi (c : Conn) (t : Nat) (a : Api) (rep : Bool) : Option (Conn × List Ac
   | .setHandler h => some ({ c with active := some h }, [])
   | .guardedClose =>
     if c.cancelled then some (c, []) else some (c, [.api (.close false) false])
+  | .cancelParent => some ({ c with cancelled := true }, [])
 
 /-- `recover = true` is the source (the `recover()` in startReadLoop's inner loop) -/
 def effect (recover : Bool) (c : Conn) (t : Nat) (act : Act) : Option (Conn × List Act) :=
@@ -207,6 +210,7 @@ def wApi : Api → Nat
   | .failNet _ => 1
   | .setHandler _ => 1
   | .guardedClose => 3
+  | .cancelParent => 1
 
 def wApis (l : List Api) : Nat := (l.map wApi).sum
 
